@@ -906,7 +906,10 @@ class Association(threading.Thread):
                 # For the elements in the status dataset, try and set
                 #   the corresponding response primitive attribute
                 for elem in status:
-                    if hasattr(rsp, elem.keyword):
+                    # (the response always answers the request it belongs to)
+                    if elem.keyword != "MessageIDBeingRespondedTo" and hasattr(
+                        rsp, elem.keyword
+                    ):
                         setattr(rsp, elem.keyword, elem.value)
                     else:
                         LOGGER.warning(
